@@ -6,7 +6,11 @@ open Py Wire C16
 /-- stand-in for `utils.saltHash`: `h` followed by the hex of the password (injective, line-safe) -/
 def hashStandIn (p : Str) : Str := 'h' :: (Wire.enc p).toList
 
-def cfg : Cfg := { hash := hashStandIn, lower := asciiLower }
+def actorNicks : List (Str × Str) :=
+  [(s "eve", s "eve!e@evil.host"), (s "bob", s "bob!b@bob.host"), (s "opp", s "opp!o@op.host"),
+   (s "adm", s "adm!a@admin.host")]
+
+def cfg : Cfg := { hash := hashStandIn, lower := asciiLower, nicks := actorNicks }
 
 def encAuth (a : List (Nat × List Str)) : String :=
   let a := a.filter (fun p => !p.2.isEmpty)
